@@ -84,10 +84,39 @@ class _RecOS:
         return getattr(os, name)
 
 
+class SaveAborted(KeyboardInterrupt):
+    """The save is interrupted by an exception (Ctrl-C, a signal handler
+    calling sys.exit, ...): unlike a hard kill, rope's with/finally blocks run."""
+
+
+class _AbortingList(list):
+    """Event list that raises inside the seam when the n-th event is appended
+    (abort_at = (n, 'before') | (n, 'mid'))."""
+
+    def __init__(self, rec, abort_at, abort_exc):
+        super().__init__()
+        self._rec, self._abort_at, self._abort_exc = rec, abort_at, abort_exc
+
+    def append(self, ev):
+        at = self._abort_at
+        if at is not None and len(self) == at[0] and not self._rec.aborted:
+            self._rec.aborted = True
+            if at[1] == "mid" and ev[0] == "write":
+                half = ev[2][: len(ev[2]) // 2]
+                with builtins.open(ev[1], "ab") as f:  # the prefix that made it out
+                    f.write(half)
+                super().append(("write", ev[1], half))
+            if self._abort_exc == "enospc":
+                raise OSError(28, "No space left on device (injected)")
+            raise SaveAborted()
+        super().append(ev)
+
 class Recorder:
-    def __init__(self, ropedir):
+    def __init__(self, ropedir, abort_at=None, abort_exc="interrupt"):
         self.ropedir = os.path.realpath(ropedir)
-        self.events = []
+        self.events = _AbortingList(self, abort_at, abort_exc)
+        self.aborted = False
+
 
     def open(self, file, mode="r", *a, **kw):
         path = os.path.realpath(os.fspath(file))
@@ -180,6 +209,8 @@ class CrashSaveEngine(Engine):
         "module-level open/os seam of rope.base.project and materialising every prefix of that trace (write-through "
         "model, every byte prefix of every write) in the rope folder, then opening a brand-new Project on it in the "
         "same interpreter (module-level singletons reset)",
+        "interruption by exception: the seam raises KeyboardInterrupt / OSError(ENOSPC) at the n-th save event (or in "
+        "the middle of a write) and lets rope unwind",
         "wall clock (simulated)",
     ]
     assumptions = [
@@ -192,7 +223,8 @@ class CrashSaveEngine(Engine):
         "cases = (seeded history leading to a close, crash point) with the crash point enumerated exhaustively per "
         "history: after every recorded open/write/close/replace event and after every byte prefix of every write to a "
         "file rope reads back; one evaluation = one recovery (fresh Project on the crash state: open, history, object "
-        "info, module analysis, and on a subset one more do+close+reopen); non-trivial = a crash state in which a data "
+        "info, module analysis, and on a subset one more do+close+reopen); in addition the save is interrupted by an "
+        "exception (rope's cleanup runs) at every event and mid-write; non-trivial = a crash state in which a data "
         "file differs from both the complete previous and the complete new version, or a temporary file is present; "
         "distinct = by content hash of the rope folder"
     )
@@ -294,6 +326,43 @@ class CrashSaveEngine(Engine):
                                         liveness=(n % every == 0))
                 out.log.add(ev="crash", label=label, state=key[:12], verdict=verdict)
             out.stats["crash_states"] += n
+            # ---- the save is interrupted by an exception instead of a hard
+            # kill: rope's own cleanup code runs while unwinding.  Enumerated
+            # at every event (and in the middle of every write).
+            n_ab = 0
+            for idx in range(len(events)):
+                for where in ("before", "mid"):
+                    if where == "mid" and events[idx][0] != "write":
+                        continue
+                    exc_kind = "interrupt" if (idx + (where == "mid")) % 2 == 0 else "enospc"
+                    _write_dir(ropedir, pre)
+                    W.use()
+                    rec2 = Recorder(ropedir, abort_at=(idx, where), abort_exc=exc_kind)
+                    raised = None
+                    try:
+                        with rec2:
+                            W.project.close()
+                    except BaseException as e:  # noqa: B036 - the injected interruption
+                        raised = e
+                    if not rec2.aborted:
+                        continue
+                    files = _read_dir(ropedir)
+                    key = hashlib.sha256(kernel.canon(sorted(files.items())).encode()).hexdigest()
+                    n_ab += 1
+                    out.evals += 1
+                    out.stats["exec_abort_" + exc_kind] += 1
+                    out.stats["fired_abort_" + exc_kind] += 1
+                    label = "abort[%d]:%s:%s:%s" % (idx, events[idx][0], where, exc_kind)
+                    if key not in seen:
+                        out.nontrivial(key)
+                        out.state(key)
+                        seen.add(key)
+                    verdict = self._recover(out, W, ropedir, files, label, accept_h, accept_o, modules, prefs, limit,
+                                            liveness=(n_ab % 3 == 0))
+                    out.log.add(ev="abort", label=label, raised=type(raised).__name__ if raised else None,
+                                state=key[:12], verdict=verdict)
+            out.stats["abort_states"] += n_ab
+            _write_dir(ropedir, post)
             out.schedules.add(kernel.short_hash([e[0] for e in events]))
             out.sim_s = W.clock.covered_s()
             out.sample = {
